@@ -1033,6 +1033,8 @@ class GreedyBytes(Construct):
 
     def _build(self, obj, stream, context, path):
         data = bytes(obj) if type(obj) is bytearray else obj
+        if not isinstance(data, bytes):
+            raise StringError("given non-bytes value, perhaps unicode? %r" % (data,), path=path)
         stream_write(stream, data, len(data), path)
         return data
 
